@@ -71,12 +71,12 @@ def abstract_run(ops):
 def fmt(ops):
     return ''.join(' '.join(str(x) for x in op) + '\n' for op in ops)
 
-def colliding_keys(consts, modulus, want, residue=None, start=0):
+def colliding_keys(consts, modulus, want, residue=None, start=0, prefix='k'):
     """names kN whose fnv hash has the same residue mod `modulus`"""
     found = {}
     i = start
     while True:
-        k = f'k{i}'
+        k = f'{prefix}{i}'
         r = fnv(k, consts) % modulus
         found.setdefault(r, []).append(k)
         if residue is None and len(found[r]) >= want:
@@ -213,9 +213,9 @@ def nontrivial(lines):
 def macro_histories(ctx, corr, consts):
     """#define/#undef/-D/-U histories through the real preprocessor against the dictionary"""
     rng = ctx.rng
-    same = colliding_keys(consts, consts['init'], 3)
-    # macro table already holds the ~150 predefined names: use fresh colliding identifiers for several capacities too
-    names = [f'M_{k}' for k in same] + ['ZED', 'QUUX']
+    # the macro table already holds the predefined names (capacity 512 or 1024): identifiers that collide modulo 1024
+    # collide modulo every smaller power of two as well
+    names = colliding_keys(consts, 1024, 3, prefix='M') + ['ZED', 'QUUX']
     n = 30 if not ctx.thorough else 300
     for it in range(n):
         ops = []
@@ -248,7 +248,7 @@ def macro_histories(ctx, corr, consts):
             expect.append(f'yes_{nm} {d[nm]}' if nm in d else f'no_{nm}')
         path = os.path.join(ctx.scratch, f'm{it}.c')
         open(path, 'w').write('\n'.join(src) + '\n')
-        rc, o, e = sh([ctx.cc, '-E', '-P'] + cmd + [path], timeout=30)
+        rc, o, e = sh([ctx.cc, '-E'] + cmd + [path], timeout=30)
         got = [' '.join(l.split()) for l in o.splitlines() if l.strip()]
         corr.evaluations += 1
         corr.count('macro-history')
@@ -383,3 +383,20 @@ def replay(ctx, corr, path):
     print('replay:', bad or 'history now behaves like a dictionary')
     if bad:
         corr.violations.append({'what': bad, 'history': [list(o) for o in ops], 'replay_ops': text})
+
+MANIFEST = {
+    'level_text': 'Lean 4 theorems (all hash functions, all key sets, all finite histories): the hashmap.c model refines the '
+                  'last-write-wins dictionary, never reaches unreachable()/assert, and a lookup after any history returns the value of the '
+                  'most recent put unless a delete followed (C17_refines, C17_never_aborts, C17_last_write_wins, '
+                  'C17_get_agrees_with_state). The model is tied to the code on every run: constants and fnv_hash are regenerated by a '
+                  'translator, and the hand model is run against the real hashmap.c (in-process, every bucket compared after every '
+                  'operation) on exhaustive short colliding histories plus seeded random ones; the macro table wrappers are exercised '
+                  'through chibicc -E against the dictionary.',
+    'level_note': 'Trusted: Lean kernel (axioms propext, Classical.choice, Quot.sound only; audited each run), the hand model of the '
+                  'probe/rehash loops (tied by state-level differential execution, which is testing), tools/extract/hashmap.py, '
+                  'Nat instead of C int (capacity*100 < 2^31 assumed). Client tables other than the macro table are instances by '
+                  'inspection only.',
+    'technique': 'Lean 4 refinement proof by invariant + induction over operation lists; translator-regenerated constants; '
+                 'state-level differential correspondence with the real hashmap.c',
+    'design_ref': 'DESIGN.md section 6, C17',
+}
